@@ -50,7 +50,8 @@ RULE = ('key case: a Key or HDKey built from a drawn secret/seed in a drawn impo
         'file in the data directory and the sqlite3 cell dump; a control run without the variable must be found '
         'leaking by the same scanner. Non-trivial = a key/tx/wallet case whose history contains at least one '
         'cache-filling or secret-handling call before the view is taken; a db case with >= 5 private key rows that '
-        'are stored encrypted. Distinct by (kind, secret/seed, import format, history). [wallet cases may add a watch-only wallet (address / account xpub) into which an unrelated private key is imported; its default views are scanned] [multisig wallets whose own cosigner keys are single keys without derivation data]')
+        'are stored encrypted. Distinct by (kind, secret/seed, import format, history). [wallet cases may add a watch-only wallet (address / account xpub) into which an unrelated private key is imported; its default views are scanned] [multisig wallets whose own cosigner keys are single keys without derivation data]'
+        ' [field encryption keys of 16 / 48 / 64 bytes]')
 ASSUMPTIONS = [
     'the scanner only knows these encodings of a secret d: 32-byte big-endian (leading zero bytes optional), '
     'little-endian (as in pickled ints), hex in either case (leading zeros optional), decimal, the int itself, WIF '
